@@ -721,7 +721,21 @@ def gen_p2h_case(rng, big=False):
         T = [rng.choice([rng.uniform(150, 330), 250.0, 288.15])] * n
     elif mode == "profile":
         T = [rng.uniform(180, 320) for _ in range(n)]
-    return {"kind": "p2h", "pcls": pcls, "mode": mode, "p": p, "T": T}
+    case = {"kind": "p2h", "pcls": pcls, "mode": mode, "p": p, "T": T}
+    if rng.random() < 0.25:
+        # pressures stored as integers (e.g. an integer Pa / hPa*100 table): same values, other dtype
+        pi = sorted({int(round(v)) for v in p if v >= 1}, reverse=True)
+        if rng.random() < 0.5 and len(pi) >= 2:
+            # finely spaced integer grid: layers of a few metres
+            p0 = pi[0]
+            pi = [p0 - 5 * k for k in range(min(len(pi) * 4, 400)) if p0 - 5 * k > 1000]
+        if len(pi) >= 2:
+            case["p"] = [float(v) for v in pi]
+            case["pdtype"] = "int64"
+            case["pcls"] = pcls + "-int"
+            if case["T"] is not None:
+                case["T"] = (case["T"] * 8)[:len(pi)] if len(case["T"]) < len(pi) else case["T"][:len(pi)]
+    return case
 
 
 def gen_isa_case(rng, big=False):
@@ -1221,6 +1235,7 @@ def check_p2h(rec, case):
     LD = cm.LD
     p = np.asarray(case["p"], dtype=float)
     n = p.size
+    p_in = p if case.get("pdtype") != "int64" else p.astype(np.int64)
     T = None if case["T"] is None else np.asarray(case["T"], dtype=float)
     Md = float(am.molar_fractions()[1])
     Rd = R_STAR / Md
@@ -1228,8 +1243,10 @@ def check_p2h(rec, case):
     rec.count("p2h.calls")
     try:
         with np.errstate(all="ignore"):
-            z = atm.pressure2height(p.copy()) if T is None else atm.pressure2height(p.copy(),
-                                                                                     T.copy())
+            z = atm.pressure2height(p_in.copy()) if T is None else atm.pressure2height(p_in.copy(),
+                                                                                        T.copy())
+        if case.get("pdtype") == "int64":
+            rec.count("p2h.integer_pressure_calls")
         z = np.asarray(z, dtype=float)
         if z.shape != p.shape:
             rec.violation("p2h-shape", case, {"got_shape": list(z.shape), "n": n})
